@@ -836,6 +836,10 @@ impl CleanupScenario {
                     }
                     if !m.calls.values().any(|call| call.caller == c && !call.aborted) && m.calls.len() < 2 {
                         v.push(call_function(0, *sc, 1, payload_for(minor, 2)));
+                    } else if m.calls.values().any(|call| call.caller == c && !call.aborted && call.caller_serial == 0) && m.calls.len() < 3 {
+                        // the serial of a call that is still pending: a protocol violation that ends
+                        // the caller's connection — one more way of ending with work in flight
+                        v.push(call_function(0, *sc, 1, payload_for(minor, 2)));
                     }
                     v.push(subscribe_event(Some(5), *sc, 1));
                     v.push(unsubscribe_event(*sc, 1));
